@@ -131,6 +131,9 @@ func nontrivial(s uint64) bool {
 func TestCheck(t *testing.T) {
 	r := vkit.Start("C13")
 	defer r.Finish(t)
+	if r.ReplayCold() {
+		return
+	}
 	if r.Replay != "" {
 		var c Case
 		if err := r.LoadReplay(&c); err != nil {
@@ -206,6 +209,8 @@ func TestCheck(t *testing.T) {
 		})
 	})
 	r.Sampled()
+	r.ColdPhase(coldFirst)
+
 	r.Phase("C: rapid", func() {
 		r.Rapid(t, "rapid-size", 0, r.Pick(20000, 400000), func(rt *rapid.T, w *vkit.W) vkit.RapidCase {
 			v := rapid.Uint64().Draw(rt, "v") >> uint(rapid.IntRange(0, 63).Draw(rt, "shr")) << uint(rapid.IntRange(0, 63).Draw(rt, "shl"))
